@@ -187,7 +187,17 @@ class Types:
 
     def _record_call(self, call, fc):
         changed = False
-        for callee, skip_self in self.callees(call, fc):
+        cs = list(self.callees(call, fc))
+        # virtual dispatch: arguments of `self.m(...)` also reach overrides of m in subclasses
+        fn = call.func
+        if isinstance(fn, ast.Attribute) and isinstance(fn.value, ast.Name) and fn.value.id in ("self", "cls") and fc.fn.cls is not None:
+            for callee, skip_self in list(cs):
+                if isinstance(callee, FuncInfo) and callee.cls is not None:
+                    for sub in self.prog.subclasses(fc.fn.cls):
+                        g = sub.methods.get(fn.attr)
+                        if g is not None and g is not callee and g.kind == callee.kind:
+                            cs.append((g, skip_self))
+        for callee, skip_self in cs:
             if not isinstance(callee, FuncInfo):
                 continue
             params = callee.params
